@@ -88,6 +88,8 @@ Alternatives(v) ==
   \cup (IF v.k = "vec" THEN {List(v.e)} ELSE {})                                  \* a list where a vector was written
   \cup (IF v.k = "cons" /\ IsProper(v) THEN {WithTail(v, IntV(FALSE, <<7>>)), WithTail(v, Sym(<<120>>))} ELSE {})   \* improper tail
   \cup (IF v.k = "vec" /\ v.e # <<>> THEN {WithTail(List(v.e), Str(<<>>))} ELSE {})
+  \cup (IF v.k = "vec" /\ Len(v.e) = 2 THEN {Cons(v.e[1], v.e[2])} ELSE {})                       \* #(a b) written as the pair (a . b)
+  \cup (IF IsProper(v) /\ Len(ListElems(v)) = 2 THEN {Cons(ListElems(v)[1], ListElems(v)[2])} ELSE {})   \* (a b) written as (a . b)
   \cup {Str(<<119>>), Kw(<<107>>), Char(120), Nil, IntV(FALSE, U64Max), IntV(TRUE, One), FltV(FALSE, <<1, 5>>, 0 - 1), Bytes(<<1>>), Bool(TRUE)}   \* wrong kinds
   \cup (IF v.k = "cons" /\ v.car.k = "sym" /\ IsProper(v.cdr) THEN {Cons(v.car, Vec(ListElems(v.cdr)))} ELSE {})
 
